@@ -84,7 +84,7 @@ def run_args(ctx):
     progs = dict(c.REUSE_PROGS)
     for gi, g in enumerate(GROUPS):
         for ni, name in enumerate(("Act", "AdjT", "LogMul", "Jinvp")):
-            if ctx.quick and (ni + gi) % 2:
+            if ctx.quick and (ni + gi) % 4 not in (0,) and not (ni == 3 and gi % 2 == 0):
                 continue
             fn = progs[name]
             dtype = "float64"
@@ -358,7 +358,7 @@ def run_ducks(ctx):
     P = U.pp()
     c = _c04()
     for gi, g in enumerate(GROUPS):
-        for dtype in ("float64", "float32"):
+        for dtype in (("float64", "float32") if (not ctx.quick or gi % 2 == 0) else ("float64",)):
             X, a, p = mixed_inputs(P, g, dtype, 3, gi + 1)
             GT, AT = U.ltype(g), U.ltype(U.ALG[g])
             pad = torch.cat([a, torch.full_like(a[..., :1], 7.0)], -1)
@@ -424,6 +424,8 @@ def run_copies(ctx):
     c = _c04()
     progs = dict(c.REUSE_PROGS)
     for gi, g in enumerate(GROUPS):
+        if ctx.quick and g == "RxSO3":
+            continue          # quick: SO3, SE3, Sim3 (Sim3 has both the translation and the scale slot)
         case = {"stream": "copies", "type": g}
         try:
             X, a, p = mixed_inputs(P, g, "float64", 3, gi)
@@ -623,7 +625,7 @@ def run_sizes(ctx, dtypes=("float64",)):
         for dtype in dtypes:
             for ri, (name, fn) in enumerate(reads(P)):
                 for si, (sx, sy) in enumerate(SIZE_SHAPES + extra):
-                    if ctx.quick and (si + ri + 5 * gi) % 9 != 0:
+                    if ctx.quick and (si + ri + 5 * gi) % 12 != 0:
                         continue          # quick tier: every shape pair meets every read in one of the groups
                     case = {"stream": "sizes", "type": g, "dtype": dtype, "read": name, "shape_X": list(sx), "shape_other": list(sy)}
                     try:
@@ -719,7 +721,7 @@ def run_interleave(ctx, again=False):
     if again:
         orders = {"stride 7, after all other streams": orders["stride 7"]}
     elif ctx.quick:       # quick: three of the five orders (the poison stream of pass 5 interleaves single-item calls of every operation)
-        orders = {k_: orders[k_] for k_ in ("batch-1 first", "reversed", "stride 7")}
+        orders = {k_: orders[k_] for k_ in ("batch-1 first", "stride 7")}
     first = getattr(ctx, "_c04_first", {}) if again else {}
     ctx._c04_first = first
     for oname, order in orders.items():
